@@ -14,11 +14,14 @@ func parseUrlPath(pathStr string, m meta.Definition) ([]*Path, error) {
 	p := &Path{Meta: m}
 	path := []*Path{}
 	segments := strings.Split(pathStr, "/")
-	for _, segment := range segments {
+	for i, segment := range segments {
 
 		// a/b/c same as a/b/c/
 		if segment == "" {
-			break
+			if i == len(segments)-1 {
+				break
+			}
+			return nil, fmt.Errorf("%w. empty segment in path '%s'", fc.BadRequestError, pathStr)
 		}
 
 		var ident string
@@ -50,17 +53,21 @@ func parseUrlPath(pathStr string, m meta.Definition) ([]*Path, error) {
 		if !hasDefs {
 			return nil, fmt.Errorf("%w. cannot select '%s' inside %s, it has no children", fc.BadRequestError, ident, p.Meta.Ident())
 		}
-		seg.Meta = meta.Find(parent, ident)
-		if seg.Meta == nil {
-			// check for fully qualified ident
-			if colon := strings.IndexRune(ident, ':'); colon > 0 {
-				module := ident[:colon]
-				ident = ident[colon+1:]
-				potential := meta.Find(parent, ident)
-				if potential != nil {
-					if meta.OriginalModule(potential).Ident() == module {
-						seg.Meta = potential
-					}
+		// the segment names one node: an identifier, optionally qualified by
+		// the name of the module that defines it. (meta.Find would take a '/',
+		// '..' or any prefix inside a decoded segment as a path of its own.)
+		name, module := ident, ""
+		if colon := strings.IndexRune(ident, ':'); colon > 0 {
+			module, name = ident[:colon], ident[colon+1:]
+		}
+		if !strings.ContainsAny(name, "/:") && name != ".." {
+			potential := meta.Find(parent, name)
+			_, isChoice := potential.(*meta.Choice)
+			_, isCase := potential.(*meta.ChoiceCase)
+			if potential != nil && !isChoice && !isCase {
+				// choices and cases are not part of a data path
+				if module == "" || meta.OriginalModule(potential).Ident() == module {
+					seg.Meta = potential
 				}
 			}
 		}
